@@ -579,3 +579,61 @@ Proof.
     destruct (cut_is_prefix _ _ _ S) as (m & Hm & ->). cbn in Hm. destruct m; [reflexivity|lia].
   - rewrite C, O. cbn [plan]. rewrite L, R. cbn. split; [reflexivity | left; reflexivity].
 Qed.
+
+(* ---------- the executed table (gen/Gen_C06.v, the exec_ definitions) against the tables read from the source text and the
+   hand-written ones of the model ---------- *)
+Definition opt_enc_eqb (a b : option enc) : bool :=
+  match a, b with
+  | None, None => true
+  | Some ERaw, Some ERaw | Some EUncompressed, Some EUncompressed | Some EPkixDer, Some EPkixDer
+  | Some ECompressed, Some ECompressed | Some ECompositeJSON, Some ECompositeJSON => true
+  | _, _ => false
+  end.
+
+Lemma opt_enc_eqb_eq a b : opt_enc_eqb a b = true -> a = b.
+Proof. destruct a as [[]|], b as [[]|]; cbn; congruence. Qed.
+
+(* does the model say a stored keyset of type kt can be exported / gets a thumbprint id *)
+Definition model_exportable (kt : ktype) : bool := negb (kt_random_id kt) && kt_exportable kt.
+
+Definition exec_row_ok (kt : ktype) : bool :=
+  Bool.eqb (exec_creatable kt) (kt_creatable kt) &&
+  Bool.eqb (exec_importable kt) (kt_importable kt) &&
+  Bool.eqb (exec_stored kt) (kt_creatable kt || kt_importable kt) &&
+  (negb (exec_stored kt) ||
+   (Bool.eqb (exec_exportable kt) (model_exportable kt) &&
+    opt_enc_eqb (exec_export_enc kt) (if model_exportable kt then export_enc kt else None) &&
+    Bool.eqb (exec_thumb_id kt) (model_exportable kt && kt_kid_defined kt) &&
+    Bool.eqb (exec_rotatable kt) (kt_rotatable kt))).
+
+Lemma exec_rows_ok : forall kt, exec_row_ok kt = true.
+Proof. intro kt. destruct kt; vm_compute; reflexivity. Qed.
+
+Lemma exec_tables_agree : forall kt,
+  exec_creatable kt = kt_creatable kt /\ exec_importable kt = kt_importable kt /\
+  (exec_stored kt = true ->
+     exec_exportable kt = model_exportable kt /\
+     exec_export_enc kt = (if model_exportable kt then export_enc kt else None) /\
+     exec_thumb_id kt = (model_exportable kt && kt_kid_defined kt)%bool /\
+     exec_rotatable kt = kt_rotatable kt).
+Proof.
+  intro kt. pose proof (exec_rows_ok kt) as H. unfold exec_row_ok in H.
+  repeat (apply andb_true_iff in H; destruct H as [H ?]).
+  apply eqb_prop in H. split; [exact H|].
+  match goal with X : Bool.eqb (exec_importable kt) _ = true |- _ => apply eqb_prop in X; split; [exact X|] end.
+  intro S.
+  match goal with X : (negb (exec_stored kt) || _)%bool = true |- _ => rewrite S in X; cbn [negb orb] in X; rename X into R end.
+  repeat (apply andb_true_iff in R; destruct R as [R ?]).
+  apply eqb_prop in R. split; [exact R|].
+  match goal with X : opt_enc_eqb _ _ = true |- _ => apply opt_enc_eqb_eq in X; split; [exact X|] end.
+  match goal with X : Bool.eqb (exec_thumb_id kt) _ = true |- _ => apply eqb_prop in X; split; [exact X|] end.
+  match goal with X : Bool.eqb (exec_rotatable kt) _ = true |- _ => apply eqb_prop in X; exact X end.
+Qed.
+
+Lemma export_iff_exportable : forall v st id ks k,
+  lookup (st_store st) id = Some ks -> primary ks = Some k ->
+  snd (step v st (KExport id, None)) = (if model_exportable (ks_kt ks) then OPub k else OErr).
+Proof.
+  intros v st id ks k L P. unfold step, step_calls. cbn [plan]. rewrite L, P. cbn [snd].
+  unfold model_exportable. destruct (kt_random_id (ks_kt ks)), (kt_exportable (ks_kt ks)); reflexivity.
+Qed.
